@@ -351,3 +351,129 @@ func Abs(path string) (string, error) {
 }
 
 var _ = verif.Reach
+
+// Stat / Lstat report on a file of the model.
+func Stat(name string) (os.FileInfo, error) {
+	f := fsFind(name)
+	if f == nil {
+		return nil, pathErr("stat", name, fs.ErrNotExist)
+	}
+	return mInfo{fsBase(name), int64(len(f.data))}, nil
+}
+
+// IsNotExist / IsExist as in package os (unwrap *PathError, compare with the sentinel).
+func IsNotExist(err error) bool {
+	if pe, ok := err.(*fs.PathError); ok {
+		err = pe.Err
+	}
+	return err == fs.ErrNotExist
+}
+
+func IsExist(err error) bool {
+	if pe, ok := err.(*fs.PathError); ok {
+		err = pe.Err
+	}
+	return err == fs.ErrExist
+}
+
+// ErrorsIs models errors.Is (identity, Is method, Unwrap chain).
+func ErrorsIs(err, target error) bool {
+	for err != nil {
+		if err == target {
+			return true
+		}
+		if x, ok := err.(interface{ Is(error) bool }); ok && x.Is(target) {
+			return true
+		}
+		u, ok := err.(interface{ Unwrap() error })
+		if !ok {
+			return false
+		}
+		err = u.Unwrap()
+	}
+	return target == nil
+}
+
+var tempCounter int
+
+// CreateTemp creates a new file with a unique name in dir (os.CreateTemp / ioutil.TempFile).
+func CreateTemp(dir, pattern string) (*os.File, error) {
+	if dir == "" {
+		dir = TempDir()
+	}
+	tempCounter++
+	name := dir + "/" + pattern + "tmp" + string(rune('0'+tempCounter%10)) + string(rune('0'+(tempCounter/10)%10))
+	return OpenFile(name, os.O_RDWR|os.O_CREATE|os.O_EXCL, 0600)
+}
+
+func FileSeek(osf *os.File, offset int64, whence int) (int64, error) {
+	h := fsHandles[osf]
+	if h == nil || h.closed {
+		return 0, fs.ErrClosed
+	}
+	base := 0
+	switch whence {
+	case 1:
+		base = h.pos
+	case 2:
+		base = len(h.f.data)
+	}
+	p := base + int(offset)
+	if p < 0 {
+		return 0, pathErr("seek", h.f.path, errors.New("invalid argument"))
+	}
+	h.pos = p
+	return int64(p), nil
+}
+
+func fsTruncate(f *mFile, size int64) {
+	fsStep("truncate "+f.path, false)
+	if int(size) <= len(f.data) {
+		f.data = f.data[:size]
+		return
+	}
+	for len(f.data) < int(size) {
+		f.data = append(f.data, 0)
+	}
+}
+
+func FileTruncate(osf *os.File, size int64) error {
+	h := fsHandles[osf]
+	if h == nil || h.closed {
+		return fs.ErrClosed
+	}
+	fsTruncate(h.f, size)
+	return nil
+}
+
+func Truncate(name string, size int64) error {
+	f := fsFind(name)
+	if f == nil {
+		return pathErr("truncate", name, fs.ErrNotExist)
+	}
+	fsTruncate(f, size)
+	return nil
+}
+
+func FileStat(osf *os.File) (os.FileInfo, error) {
+	h := fsHandles[osf]
+	if h == nil {
+		return nil, fs.ErrClosed
+	}
+	return mInfo{fsBase(h.f.path), int64(len(h.f.data))}, nil
+}
+
+func RemoveAll(path string) error {
+	for i := 0; i < len(fsFiles); {
+		p := fsFiles[i].path
+		if p == path || (len(p) > len(path) && p[:len(path)] == path && p[len(path)] == '/') {
+			fsStep("remove "+p, false)
+			fsFiles = append(fsFiles[:i], fsFiles[i+1:]...)
+			continue
+		}
+		i++
+	}
+	return nil
+}
+
+func Mkdir(path string, perm os.FileMode) error { return nil }
